@@ -364,5 +364,22 @@ class Index:
         return False
 
     def sha(self, module: Module, node) -> str:
+        """hash of what the verification conditions of this function are generated from in ITS OWN module: the function
+        (or region) text plus the definitions of the module-level constants it names, transitively (a changed constant,
+        e.g. a frame capacity, changes the function's obligations although its own text is the same)"""
         src = getattr(node, "region_src", None) or module.segment(node)
-        return hashlib.sha256(src.encode()).hexdigest()[:16]
+        parts = [src]
+        seen = set()
+        todo = [n.id for n in ast.walk(node) if isinstance(n, ast.Name)]
+        while todo:
+            nm = todo.pop()
+            if nm in seen or nm not in module.consts:
+                continue
+            seen.add(nm)
+            val = module.consts[nm]
+            try:
+                parts.append("%s = %s" % (nm, ast.unparse(val)))
+            except Exception:  # noqa
+                parts.append(nm)
+            todo.extend(n.id for n in ast.walk(val) if isinstance(n, ast.Name))
+        return hashlib.sha256("\n".join([parts[0]] + sorted(parts[1:])).encode()).hexdigest()[:16]
